@@ -144,6 +144,8 @@ def run(ctx):
             got = any(strip_payload(f)[0] == "call" and strip_payload(f)[1] and strip_payload(f)[1]["path"] == "phf::Map::<K, V>::get" for f in fields)
             ctx.check(got, "K2.returns-hit", "returned operator is the looked-up entry (bb%d, %s)" % (sbi, cfg), "the operation returned is not built from the table lookup's result", where=b.where(sbi, ssi), nontrivial=True, fn=b.key)
 
+        for (ob, obi, ot) in disp.other_sites:
+            ctx.fail("K2.table-consulted-elsewhere", "lookup|%s" % ob.key.split("::", 1)[1], "%s looks a key up in an operator table on its own: what is an operation, and with how many operands, is decided in a second place that can disagree with the dispatcher" % ob.key.split("::", 1)[1], where=ob.where(obi), fn=ob.key)
         for t in tables:
             for u in t.other_users:
                 ub = facts.body(u)
